@@ -139,6 +139,16 @@ func (in *Interp) runPath(fn *ssa.Function, argv []Value, p pendingPath) {
 			}
 		}
 	}
+	if in.pinned != nil {
+		fmt.Printf("ENGINE status=%s covers=%v observed=%q\n", status, in.pathCovers, strings.Join(in.observed, ";"))
+		for _, v := range in.violations {
+			fmt.Printf("ENGINE violation: %s %s\n", v.Kind, v.Msg)
+		}
+		for _, s := range in.cs.Inconclusive {
+			fmt.Printf("ENGINE inconclusive: %s\n", s)
+		}
+	}
+	in.observed = nil
 	in.rollback()
 }
 
